@@ -1,4 +1,6 @@
 """C16 -- bit, number and DNA conversions are exact inverses at any length."""
+import numpy as np
+
 import dsw
 from core import Case, enc_call, digits, guard, s2c, c2s
 
@@ -95,8 +97,10 @@ def build(stream, p):
         bits = p["bits"]
         # composite observable: str value, int value, and both round trips
         def run():
-            ds = dsw.bit_to_number(bits, is_string=True)
-            di = dsw.bit_to_number(bits, is_string=False)
+            # a bit sequence is a list of ints or (what encode passes) a NumPy integer array
+            arg = bits if len(bits) % 3 == 0 else np.array(bits, dtype=[int, np.int64, np.uint8, np.int8][len(bits) % 4])
+            ds = dsw.bit_to_number(arg, is_string=True)
+            di = dsw.bit_to_number(arg, is_string=False)
             return ds, di, dsw.number_to_bit(ds, len(bits)), dsw.number_to_bit(di, len(bits))
         call = None
         calls = [enc_call(5, bits), enc_call(6, bits)]
